@@ -568,7 +568,17 @@ def ee_ensures(s):
     diff = preds * s.mask - tg * s.mask
     err = (abs(diff)).sum() if "l1" in s.loss_type else (abs(diff) ** 2).sum()
     b, N, mi = lift(s.b), lift(s.N), lift(s.mi)
-    return [("loss=batch_error/(b/N)/mean_intensity", lift(loss) * (z3.ToReal(b) / z3.ToReal(N)) * mi == lift(err)),
+    # The property needs: loss_b = E_b * kappa / b with kappa independent of the batch (then the mean over the N/b batches of
+    # a partition equals the full-batch value, whatever kappa is).  Relational form by substitution on the term the code
+    # returned: replace the batch error E (the Sigma-term) and b by two independent copies and compare loss*b/E.
+    t, e = lift(loss), lift(err)
+    b1, b2, e1, e2 = z3.Int("b_1"), z3.Int("b_2"), z3.Real("E_1"), z3.Real("E_2")
+    t1 = z3.substitute(z3.substitute(t, (e, e1)), (b, b1))
+    t2 = z3.substitute(z3.substitute(t, (e, e2)), (b, b2))
+    mentions_e = z3.substitute(t, (e, e1)).get_id() != t.get_id()
+    return [("loss-depends-on-the-batch-only-through-its-error-sum-and-size", mentions_e),
+            ("loss*b/E-is-the-same-for-every-batch", implies(AND(b1 >= 1, b2 >= 1, e1 != 0, e2 != 0),
+                                                              t1 * z3.ToReal(b1) * e2 == t2 * z3.ToReal(b2) * e1)),
             ("targets-are-the-batch's-rows", lift(targets.sym_len()) == b)]
 
 
